@@ -16,14 +16,31 @@ class BQLSemantics:
     def null(self, value):
         return None
 
+    def _error(self, value, rule):
+        # Report an invalid literal as a syntax error at the location
+        # of the offending token.
+        endpos = self._ctx.tokenizer.pos
+        pos = endpos - len(value)
+        tokenizer = self._ctx.tokenizer
+        line = tokenizer.line_info(pos).line
+        return ParseError(tatsu.infos.ParseInfo(tokenizer, rule, pos, endpos, line, []))
+
     def integer(self, value):
-        return int(value)
+        try:
+            return int(value)
+        except ValueError as exc:
+            # Too many digits for conversion to int.
+            raise self._error(value, 'integer') from exc
 
     def decimal(self, value):
         return decimal.Decimal(value)
 
     def date(self, value):
-        return datetime.datetime.strptime(value, '%Y-%m-%d').date()
+        try:
+            return datetime.datetime.strptime(value, '%Y-%m-%d').date()
+        except ValueError as exc:
+            # Not a valid calendar date.
+            raise self._error(value, 'date') from exc
 
     def string(self, value):
         return value[1:-1]
@@ -60,6 +77,7 @@ def parse(text):
     try:
         return parser.BQLParser().parse(text, semantics=BQLSemantics())
     except tatsu.exceptions.ParseError as exc:
-        line = exc.tokenizer.line_info(exc.pos).line
+        # There are no lines to lookup if the text is empty.
+        line = exc.tokenizer.line_info(exc.pos).line if text else 0
         parseinfo = tatsu.infos.ParseInfo(exc.tokenizer, exc.item, exc.pos, exc.pos + 1, line, [])
         raise ParseError(parseinfo) from exc
